@@ -75,6 +75,18 @@ def handle (args : List String) : String :=
       let some b := parseQIList? b | return "bad-op"
       if d = 0 || a.length ≠ d * d || b.length ≠ d * d then return "bad-op"
       return QI.toStr (distance2 (floatScalars d) d (matOfList d a) (matOfList d b))
+  | ["scal", d] => Id.run do
+      -- exact residuals of the executed scalars against the relations of `Scalars.Valid`:
+      -- cD(k)^2 k(k+1) - 2 (k = 1..d-1), cI^2 d - 2, aD(k) - cD(k)/2, aI - cI/2
+      let some d := d.toNat? | return "bad-op"
+      if d < 2 then return "bad-op"
+      let S := floatScalars d
+      let ks := (List.range (d - 1)).map (· + 1)
+      let r1 := ks.map fun k => S.cD k * S.cD k * (QI.ofNat (k * (k + 1))) - QI.ofNat 2
+      let r2 := [S.cI * S.cI * QI.ofNat d - QI.ofNat 2]
+      let r3 := ks.map fun k => S.aD k - S.half * S.cD k
+      let r4 := [S.aI - S.half * S.cI]
+      return qiListStr (r1 ++ r2 ++ r3 ++ r4)
   | _ => "bad-op"
 
 end Numqi.Driver.C16
